@@ -73,3 +73,7 @@ func TestC11(t *testing.T) { core.Run(t, P11) }
 func TestC12(t *testing.T) { core.Run(t, P12) }
 
 func TestC13(t *testing.T) { core.Run(t, P13) }
+
+func TestC15(t *testing.T) { core.Run(t, P15) }
+
+func TestC16(t *testing.T) { core.Run(t, P16) }
